@@ -61,7 +61,7 @@ SPEC = dict(
         ref="DESIGN.md §6 C10, Appendix D"),
     imports="From Ship Require Import Base HubModel.\nOpen Scope N_scope.",
     case_type="c10_case", check_fn="check_c10",
-    drivers=[dict(bin="hubunit", args=["-prop", "C10"], n_quick=1500, n_thorough=40000, timeout=900)],
+    drivers=[dict(bin="hubunit", args=["-prop", "C10"], n_quick=1200, n_thorough=40000, timeout=900)],
     codes={10: "dial_to_untrusted_unqueued_ski", 11: "dial_after_shutdown", 12: "dial_after_unregister",
            13: "unregister_left_trust_counter_or_connection", 14: "cancel_did_not_abort_or_clear_trust",
            15: "close_report_removed_wrong_registry_entry", 16: "disconnect_notification_missing_or_repeated",
